@@ -102,6 +102,16 @@ CHECKS["C13"] = dict(
     technique="Lean 4 proof (simp over translator-regenerated decision list) + chain-vs-model correspondence + directory loading oracle",
 )
 
+CHECKS["C11"] = dict(
+    category="proof",
+    text="Lean 4 obligation C11_native_covers (decide) over a table regenerated on every run by executing the current SidemanticAdapter export/parse on one probe per pydantic field and value class (102 rows): every field of the explicit result-affecting vocabulary "
+         "(all metric type parameters, filters, fill_nulls_with incl. 0, keys, relationship fields incl. through-keys, segments, pre-aggregations incl. refresh keys, parameters, default time dimension, graph-level agg) survives export→parse; field-wise ⇒ record-wise lemma for all records. "
+         "Tie: random layers over the full vocabulary with YAML-sensitive strings → to_yaml → from_yaml: model_dump of every object, a 12-query compile battery and pre-aggregation routing identical; Python/YAML/SQL-definition-syntax parity.",
+    design_ref="DESIGN.md §4 C11",
+    note="The Lean part is a finite table obligation (translator by evaluation) plus a generic lemma; field-wise independence of export/parse and PyYAML identity are assumptions exercised by the whole-layer round trips. The token re-assembly of the SQL definition syntax (_parse_property) is covered by the parity correspondence only. Two genuine defects fixed in /repo.",
+    technique="Lean 4 decide over translator-regenerated field table + whole-layer round-trip correspondence",
+)
+
 NOT_APPLICABLE = {}
 
 
